@@ -80,6 +80,10 @@ pub enum Case {
     /// a sequential prefix, then one client issues the whole batch without waiting for any reply (the requests are
     /// enqueued in issue order); every reply must be what sequential execution in issue order gives
     Pipelined { pre: Vec<CReq>, batch: Vec<CReq> },
+    /// one client issues its requests one after the other, but gives up on some of them right after they were enqueued (the
+    /// request future is polled once and dropped): an abandoned request still counts as an earlier request - later replies
+    /// and the final state reflect it - and abandoning it must not disturb anything else
+    Abandoned { pre: Vec<CReq>, reqs: Vec<(CReq, bool)> },
 }
 
 #[derive(Clone, Debug, Default)]
@@ -168,7 +172,8 @@ impl Prop for C14 {
         };
         let conc = (vec(creq(), 0..=3), vec(creq(), 1..=5), vec(creq(), 1..=5)).prop_map(|(pre, a, b)| Case::Concurrent { pre, a, b });
         let pipe = (vec(creq(), 0..=3), vec(creq(), 2..=12)).prop_map(|(pre, batch)| Case::Pipelined { pre, batch });
-        prop_oneof![6 => seq, 2 => conc, 1 => pipe].boxed()
+        let aband = (vec(creq(), 0..=3), vec((creq(), prop::bool::weighted(0.4)), 2..=14)).prop_map(|(pre, reqs)| Case::Abandoned { pre, reqs });
+        prop_oneof![12 => seq, 4 => conc, 2 => pipe, 1 => aband].boxed()
     }
 
     fn check(ctx: &mut Ctx, c: &Case) -> Outcome {
@@ -183,6 +188,7 @@ impl Prop for C14 {
             }
             Case::Concurrent { pre, a, b } => concurrent(ctx, pre, a, b, &mut o),
             Case::Pipelined { pre, batch } => pipelined(ctx, pre, batch, &mut o),
+            Case::Abandoned { pre, reqs } => abandoned(ctx, pre, reqs, &mut o),
         };
         verif::set_clock(None);
         if let Err(e) = r {
@@ -896,4 +902,81 @@ fn pipelined(ctx: &mut Ctx, pre: &[CReq], batch: &[CReq], o: &mut Outcome) -> R<
         Ok(())
     });
     res
+}
+
+// ------------------------------------------------------------------------------------------------
+// abandoned requests: enqueued, then the caller goes away
+
+fn abandoned(ctx: &mut Ctx, pre: &[CReq], reqs: &[(CReq, bool)], o: &mut Outcome) -> R<()> {
+    use std::future::Future;
+    o.class("abandoned-requests");
+    verif::set_clock(Some(CNOW));
+    let ns = namespace(0).id();
+    let h = act::spawn(Store::memory());
+    let mut model = Mini::default();
+    ctx.rt.block_on(async {
+        es(h.import_author(author(0).clone()).await)?;
+        es(h.import_namespace(namespace(0).clone().into()).await)?;
+        for r in pre {
+            let got = real_step(&h, ns, r).await;
+            let want = mini_step(&mut model, r);
+            if got != want {
+                o.fail("C14/concurrent-prefix", format!("sequential prefix: {:?} replied {:?}, model {:?}", r, got, want));
+                return Ok::<(), String>(());
+            }
+        }
+        let mut gave_up_on_a_write = false;
+        for (i, (r, abandon)) in reqs.iter().enumerate() {
+            if *abandon {
+                // first poll: the request is put into the actor's inbox; then the caller goes away
+                let mut f = Box::pin(real_step(&h, ns, r));
+                std::future::poll_fn(|cx| {
+                    let _ = f.as_mut().poll(cx);
+                    std::task::Poll::Ready(())
+                })
+                .await;
+                drop(f);
+                let _ = mini_step(&mut model, r);
+                if matches!(r, CReq::InsertLocal(..) | CReq::InsertRemote(..) | CReq::DeletePrefix(..) | CReq::Open(..) | CReq::Close) {
+                    gave_up_on_a_write = true;
+                }
+            } else {
+                let got = real_step(&h, ns, r).await;
+                let want = mini_step(&mut model, r);
+                o.count("requests_checked_against_model", 1);
+                if got != want {
+                    o.fail(
+                        "C14/reply-after-abandoned-requests",
+                        format!("request {i} {:?} of {:?} (true = abandoned right after being enqueued) replied {:?}, sequential execution of everything enqueued so far gives {:?}", r, reqs, got, want),
+                    );
+                    return Ok(());
+                }
+            }
+        }
+        if gave_up_on_a_write {
+            o.nontrivial = true;
+            o.class("abandoned-requests/a-state-changing-request-was-abandoned");
+        }
+        // what the actor holds in the end
+        match h.get_state(ns).await {
+            Ok(s) => {
+                if model.handles == 0 || s.handles != model.handles || s.sync != model.sync {
+                    o.fail("C14/state", format!("after {:?}: state {:?}, model handles={} sync={}", reqs, s, model.handles, model.sync));
+                    return Ok(());
+                }
+            }
+            Err(_) => {
+                if model.handles != 0 {
+                    o.fail("C14/state", format!("after {:?}: the document is closed, model handles={}", reqs, model.handles));
+                    return Ok(());
+                }
+            }
+        }
+        let mut store = es(h.shutdown().await)?;
+        let final_entries = dump(&mut store, ns)?;
+        if final_entries != model.entries.dump() {
+            o.fail("C14/shutdown-store", format!("after {:?} the store holds {} model {}", reqs, describe_all(&final_entries), describe_all(&model.entries.dump())));
+        }
+        Ok(())
+    })
 }
